@@ -145,6 +145,7 @@ m("c10-reverse-drops-first-datagram", "src/listeners/reverse.rs", "            /
 m("c10-one-session-id", "src/common/h11c.rs", "            let session_id = SESSION_ID.fetch_add(1, Ordering::Relaxed);", "            let session_id = SESSION_ID.load(Ordering::Relaxed);", ["C10"])
 m("c10-udp-reply-truncated-1472", "src/common/udp.rs", "        self.socket.send(frame.body()).await", "        self.socket.send(&frame.body()[..frame.body().len().min(1472)]).await", ["C10"])
 m("c10-socks-udp-reply-unlabelled", "src/common/socks.rs", "                IpAddr::V4(v4) => {\n                    body.put_u8(SOCKS_ATYP_INET4);\n                    body.extend_from_slice(&v4.octets());\n                    body.put_u16(a.port());", "                IpAddr::V4(_v4) => {\n                    body.put_u8(SOCKS_ATYP_INET4);\n                    body.extend_from_slice(&[0, 0, 0, 0]);\n                    body.put_u16(a.port());", ["C10"])
+m("c10-quic-dispatcher-waits-for-full-queue", "src/common/quic.rs", "                    match session.try_send(frame) {\n                        Ok(()) => {}\n                        Err(TrySendError::Full(_)) => {", "                    match session.send(frame).await.map_err(|e| TrySendError::Closed(e.0)) {\n                        Ok(()) => {}\n                        Err(TrySendError::Full(_)) => {", ["C10"])
 m("c10-enforce-udp-client-ignored", "src/listeners/socks.rs", "                let remote = if self.enforce_udp_client {", "                let remote = if self.enforce_udp_client && false {", [])
 m("c18-lb-cycles-accepted", "src/connectors/loadbalance.rs", "        for _ in 0..MAX_NESTING {\n            level = level", "        for _ in 0..MAX_NESTING {\n            if true {\n                return Ok(());\n            }\n            level = level", ["C18"])
 m("c18-no-tree-depth-limit", "milu/src/parser.rs", "const MAX_DEPTH: usize = 256;", "const MAX_DEPTH: usize = 1 << 30;", ["C18"])
